@@ -4,6 +4,7 @@ CONSTANTS
   RenderSetsType = FALSE
   BodilessByLine = TRUE
   ForgetCloseOnFault = FALSE
+  StaleLengthOnRenderFault = FALSE
   Tier = "tiny"
   Ifaces = {"wsgi", "asgi"}
   Codes = {200, 204}
